@@ -538,6 +538,31 @@ func c06(c *core.Ctx, r *core.Report) {
 		tpkg := "pkg/f1/testing"
 		stack := handleFields(c).stack
 		tearing := handleFields(c).tearing
+		// the marker's stores, the cleanup calls and the classifying (recovering) calls seen from the teardown function
+		tdFn := c.MustFn(tpkg, "T.teardown")
+		tdStores := map[ssa.Instruction]bool{}
+		var onEv, offEv, cleanupEv, classEv []an.Event
+		an.Flatten(tdFn, flatDepth, nil, func(e an.Event) {
+			if st, ok := e.Instr.(*ssa.Store); ok && an.SameField(an.FieldOfAddr(st.Addr), tearing) {
+				if k, isK := st.Val.(*ssa.Const); isK && k.Value != nil {
+					tdStores[e.Instr] = true
+					if k.Value.String() == handleFields(c).tearingOn {
+						onEv = append(onEv, e)
+					} else {
+						offEv = append(offEv, e)
+					}
+				}
+			}
+			if call := e.Call(); call != nil {
+				if t := an.Callee(call); t != nil {
+					if _, rec := recovering(t); rec {
+						classEv = append(classEv, e)
+					}
+				} else if sig, isSig := call.Common().Value.Type().Underlying().(*types.Signature); isSig && !call.Common().IsInvoke() && sig.Params().Len() == 0 && sig.Results().Len() == 0 {
+					cleanupEv = append(cleanupEv, e)
+				}
+			}
+		})
 		n := 0
 		for _, fn := range c.AllFuncs {
 			an.Instrs(fn, func(in ssa.Instruction) {
@@ -577,6 +602,11 @@ func c06(c *core.Ctx, r *core.Report) {
 					}
 					hf := handleFields(c)
 					okk := (val == hf.tearingOn && name == "teardown") || (val == hf.tearingOff && name == "Reset")
+					// stores made while tearing down — in the teardown function or in the helpers it runs in place — are
+					// judged by their order relative to the cleanups and their classification (below)
+					if tdStores[in] {
+						okk = true
+					}
 					// the zero value spelled out in the literal that builds a new handle
 					if fa, isFA := st.Addr.(*ssa.FieldAddr); isFA && val == hf.tearingOff {
 						if _, isNew := fa.X.(*ssa.Alloc); isNew {
@@ -634,21 +664,35 @@ func c06(c *core.Ctx, r *core.Report) {
 		}
 		r.Floor("writes to the cleanup stack / tearingDown", n, 5)
 		resetClearsOnly(c, r, "teardownStack=empty")
-		// teardown sets tearingDown before running cleanups
-		td := c.MustFn(tpkg, "T.teardown")
-		var set ssa.Instruction
-		an.Instrs(td, func(in ssa.Instruction) {
-			if st, ok := in.(*ssa.Store); ok && an.SameField(an.FieldOfAddr(st.Addr), tearing) {
-				set = in
+		// the marker is on while every cleanup runs and while its outcome is classified
+		td := tdFn
+		okOrder := len(onEv) > 0 && len(cleanupEv) > 0
+		for _, ce := range cleanupEv {
+			covered := false
+			for _, on := range onEv {
+				if an.Before(on, ce) {
+					covered = true
+				}
 			}
-		})
-		okOrder := set != nil
-		for _, call := range an.AllCalls(td) {
-			if t := an.Callee(call); t != nil && t.Parent() == td && set != nil && !an.Dominates(set, call) {
+			if !covered {
 				okOrder = false
 			}
 		}
 		r.Check(okOrder, "T.teardown#tearingDown-first", c.Pos(td.Pos()), "tearingDown is set before any cleanup runs", "cleanups run before tearingDown is set: their failures are counted as iteration failures")
+		for _, off := range offEv {
+			okOff := true
+			for _, ce := range cleanupEv {
+				if !an.Before(ce, off) {
+					okOff = false
+				}
+			}
+			for _, cl := range classEv {
+				if !an.Before(cl, off) {
+					okOff = false
+				}
+			}
+			r.Check(okOff, core.FuncName(off.Instr.Parent())+"#tearingDown-cleared-late", an.Pos(c, off.Instr), "the marker is switched off only after the cleanup ran and its outcome was classified", "the tearing-down marker is switched off before the cleanup's outcome is classified (deferred calls run last-registered-first): a cleanup that panics is booked as an iteration failure, not as a teardown failure, and a failing setup cleanup no longer fails the run")
+		}
 	})
 
 	rule(r, "C06.R6", "the run reaches the deferred setup teardown only after waiting for started iterations through a completion signal computed per call (shared with C05.R5/R9)", func() {
